@@ -395,7 +395,7 @@ def main():
     rng = rng_of(args.seed, 3)
     cosmos = [gen_cosmo(rng) for _ in range(5 if args.tier == "quick" else 12)]
     rec.guard(run_kde_los_witness, rec)
-    t0 = time.time(); budget = 24 if args.tier == "quick" else 300
+    t0 = time.process_time(); budget = 2 * 24 if args.tier == "quick" else 300
     n_round = 200 if args.tier == "quick" else 4000   # until the time budget
     for k in range(300 if args.tier == "quick" else 3000):
         lam = float(rng.uniform(0.3, 1.8)) if k % 5 else float(rng.choice([1e-5, 1e-4, 2e-4, 1.0, -0.5]))
@@ -405,7 +405,7 @@ def main():
         for t in TYPES:
             stream = "floor" if (r % 7 == 6) else "main"
             rec.guard(run_case, rec, gen_case(rng, t, cosmos, stream))
-        if time.time() - t0 > budget: break
+        if time.process_time() - t0 > budget: break
     rec.write(args.out)
 
 
